@@ -2,6 +2,7 @@ package values
 
 import (
 	"fmt"
+	"math"
 	"reflect"
 	"strings"
 	"unicode/utf8"
@@ -153,7 +154,16 @@ func (av arrayValue) IndexValue(iv Value) Value {
 	case float64:
 		n = int(ix)
 	default:
-		return nilValue
+		// an integer of another width (divided_by returns an int64), provided it is an int's worth
+		ir := reflect.ValueOf(ix)
+		switch {
+		case ir.IsValid() && ir.CanInt() && int64(int(ir.Int())) == ir.Int():
+			n = int(ir.Int())
+		case ir.IsValid() && ir.CanUint() && ir.Uint() <= math.MaxInt:
+			n = int(ir.Uint())
+		default:
+			return nilValue
+		}
 	}
 	if n < 0 {
 		n += ar.Len()
